@@ -37,7 +37,7 @@ class StubSession:
         self.payload = GENERIC if payload is None else payload
 
     def _call(self, method, url, headers=None, params=None, data=None, timeout=None, skip_auto_headers=None, **kw):
-        self.calls.append(dict(method=method.upper(), url=str(url), headers=dict(headers or {}), params=params,
+        self.calls.append(dict(method=method.upper(), url=str(url), url_obj=url, headers=dict(headers or {}), params=params,
                                data=data, skip_auto_headers=skip_auto_headers))
         return Resp(self.payload)
 
